@@ -295,6 +295,16 @@ func (s *scn) genSpecs() {
 		s.specs[k].exit = "never"
 		s.specs[k].heldRun = true
 		s.specs[k].stopBlocks = s.r.Bool()
+	case "slowstring":
+		// two Stateable runnables with subscribed monitors and a listening subscriber; a String() call of runnable 1
+		// is slow while runnable 0's change is being broadcast, and runnable 1 changes state meanwhile: the
+		// subscriber must end up with the newest map (broadcasts are atomic with their snapshot)
+		s.specs = make([]spec, 2+s.r.Intn(2))
+		for i := range s.specs {
+			s.specs[i] = spec{exit: "sig", stopBlocks: s.r.Bool()}
+		}
+		s.specs[0].stateable = true
+		s.specs[1].stateable = true
 	case "hupburst":
 		// a burst of reload requests (SIGHUPs, ReloadAll calls, triggers) while a pass is inside a held Reload():
 		// every one of them must get a pass of its own once the manager is free again
@@ -397,6 +407,10 @@ func (s *scn) header(id uint64) {
 func (s *scn) build() error {
 	s.rec = &director.Recorder{}
 	s.ph = &director.ParkHandler{}
+	// Run() logs "Listening for signals" right after it has set p.runEntered: the record is evidence of that
+	// program point (if the message is reworded the evidence is simply missing: less is pinned, nothing alarms)
+	s.ph.Rec = s.rec
+	s.ph.Notify("Listening for signals", "Entered")
 	var rs []supervisor.Runnable
 	for i, sp := range s.specs {
 		c := supmock.NewCore(i, s.rec)
@@ -1163,6 +1177,56 @@ func (s *scn) preludeHupBurst() {
 	s.snap()
 }
 
+// preludeSlowString: see family slowstring.
+func (s *scn) preludeSlowString() {
+	c0, c1 := s.cores[0], s.cores[1]
+	s.rec.WaitFor("RunCall 0", 3*time.Second)
+	s.readySet[0] = true
+	c0.SetReady(true)
+	s.rec.WaitFor("RunCall 1", 3*time.Second)
+	s.readySet[1] = true
+	c1.SetReady(true)
+	s.quiesce()
+	s.nextSub++
+	c := s.nextSub
+	ctx, cancel := context.WithCancel(context.Background())
+	s.rec.Emit("Subscribe %d", c)
+	ch := s.sup.SubscribeStateChanges(ctx)
+	sb := &subSt{ch: ch, cancel: cancel}
+	s.subs[c] = sb
+	s.quiesce()
+	drain := func() {
+		for {
+			select {
+			case m, ok := <-sb.ch:
+				if !ok {
+					return
+				}
+				s.rec.Emit("SubRecv %d %s", c, s.mapStr(m))
+			default:
+				return
+			}
+		}
+	}
+	drain()
+	a, b := 1+s.r.Intn(2), 3+s.r.Intn(2)
+	c1.HoldNextString()
+	c0.Emit(stateNames[a], a)
+	select {
+	case <-c1.StringReached:
+	case <-time.After(2 * time.Second):
+		c1.DisarmString()
+		return
+	}
+	c1.Emit(stateNames[b], b) // while runnable 0's broadcast is inside String() of runnable 1
+	s.rec.WaitQuiescent(time.Second)
+	c1.StringRelease <- struct{}{}
+	s.quiesce()
+	drain()
+	s.quiesce()
+	s.snap()
+}
+
 // preludeShortTimers: a Reload() call is held for 2.5 start-up timeouts; a second reload request arrives meanwhile.
 func (s *scn) preludeShortTimers() {
 	s.apiCall("ReloadAll", s.sup.ReloadAll)
@@ -1338,6 +1402,9 @@ func (s *scn) run() {
 	if s.family == "hupburst" {
 		s.preludeHupBurst()
 	}
+	if s.family == "slowstring" {
+		s.preludeSlowString()
+	}
 	steps := 6 + s.r.Intn(18)
 	phase := "startup"
 	trigAt := steps * 2 / 3
@@ -1485,7 +1552,7 @@ func main() {
 		child(*seed, *family)
 		return
 	}
-	fams := []string{"mixed", "startup", "timeout", "state", "reload", "sdsender", "big", "gatefail", "finalstate", "errs", "earlyshutdown", "latesub", "subclose", "gatecancel", "subentry", "slowstop", "shutdownfirst", "neverreturn", "lateerr", "shorttimers", "gatetimed", "timeoutfinal", "hupburst"}
+	fams := []string{"mixed", "startup", "timeout", "state", "reload", "sdsender", "big", "gatefail", "finalstate", "errs", "earlyshutdown", "latesub", "subclose", "gatecancel", "subentry", "slowstop", "shutdownfirst", "neverreturn", "lateerr", "shorttimers", "gatetimed", "timeoutfinal", "hupburst", "slowstring"}
 	type job struct {
 		seed uint64
 		fam  string
